@@ -70,6 +70,9 @@ func GenOp(t *rapid.T, nsess int) Op {
 		op.Data = rapid.SampledFrom(datas).Draw(t, "data")
 	case "truncate":
 		op.Length = rapid.OneOf(rapid.SampledFrom([]uint64{0, 1, 5, 10, 300}), rapid.Uint64Range(0, 20), rapid.SampledFrom([]uint64{1 << 32, 1<<63 - 1, 1 << 63, ^uint64(0) - 1})).Draw(t, "length")
+		if rapid.IntRange(0, 4).Draw(t, "withname") == 0 {
+			op.Name = "renamed" // the request also carries a new name, which ramfs refuses
+		}
 	}
 	return op
 }
@@ -151,6 +154,18 @@ func GenSeq(t *rapid.T) SeqCase {
 			Op{S: s, Kind: "write", Fid: 1, Data: d2, Offset: off},
 			Op{S: s, Kind: "read", Fid: 1, Count: 65536},
 		)
+		if rapid.Bool().Draw(t, "ftrunc") {
+			total := int(off) + len(d2)
+			if len(d1) > total {
+				total = len(d1)
+			}
+			k := rapid.IntRange(0, total).Draw(t, "fk")
+			c.Ops = append(c.Ops,
+				Op{S: s, Kind: "truncate", Fid: 1, Length: uint64(k), Name: map[bool]string{true: "renamed", false: ""}[rapid.IntRange(0, 3).Draw(t, "fname") == 0]},
+				Op{S: s, Kind: "read", Fid: 1, Count: 64, Offset: int64(rapid.IntRange(k, total+1).Draw(t, "foff"))},
+				Op{S: s, Kind: "read", Fid: 1, Count: 65536},
+			)
+		}
 	}
 	if rapid.IntRange(0, 2).Draw(t, "deepblock") == 0 {
 		// a directory chain /a/b/c with handles at depth 3 and several walks that climb two or
